@@ -34,8 +34,8 @@ func (CordonSafety) AfterScan(ctx *h.ScanCtx) []h.Violation {
 				g, name = gg, n.Name
 			}
 		}
-		if g == nil || g.Dry {
-			continue
+		if g == nil {
+			continue // (a dry-mode group is not exempt: it writes nothing at all)
 		}
 		kind := "update"
 		if e.Op == sim.OpK8sUpdate {
